@@ -40,7 +40,7 @@ void destroy_husks();
 bool seq_alive(int k);
 bool seq_completed(int k);
 void destroy_seq(int k);
-void move_seq(int k);
+void move_seq(int k, int mode = 0);
 void recreate_seq(int k);
 
 // deathwatched
